@@ -254,6 +254,7 @@ type vGen struct {
 	off      int64 // current boundary offset
 	symbolic bool  // symbolic next-positions / rotate offsets (C03)
 	casing   int
+	rotN     int // ROTATE events emitted so far
 }
 
 func (g *vGen) add(e *vEvent) int {
@@ -265,6 +266,15 @@ func (g *vGen) add(e *vEvent) int {
 		e.next = vhU32()
 	} else {
 		e.next = uint32(100 + 10*e.idx)
+		if e.kind == kRotate {
+			// the ROTATE a master sends on its own (at the start of a dump, after a restart) is artificial:
+			// its header carries end position 0; the one written at the end of a rotated file carries
+			// a real one. The ROTATE that opens the dump and the 1st, 3rd ... ROTATE after it are artificial.
+			if g.rotN == 0 || g.rotN%2 == 1 {
+				e.next = 0
+			}
+			g.rotN++
+		}
 	}
 	g.h.evs = append(g.h.evs, e)
 	return e.idx
